@@ -84,7 +84,7 @@ FAMILIES = {
     "p_nestshallow": fam(Prog="ProgNestShallow", Ops=["set"], MaxVars=3, MaxNodes=6, MaxObs=1, MaxActs=12, MaxRounds=3, MaxH=16),
     "p_leakinv": fam(Prog="ProgLeakInv", Ops=["set"], MaxVars=2, MaxNodes=5, MaxObs=2, MaxActs=13, MaxRounds=3, MaxH=16),
     "p_xsumshared": fam(K=3, Prog="ProgXSumShared", Ops=["set"], MaxVars=2, MaxNodes=5, MaxObs=2, MaxActs=11, MaxRounds=3, MaxH=16),
-    "p_xsumctl": fam(K=2, Prog="ProgXSumCtl", Ops=["set"], MaxVars=1, MaxNodes=4, MaxObs=3, MaxActs=11, MaxRounds=3, MaxH=16),
+    "p_xsumctl": fam(K=2, Prog="ProgXSumCtl", Ops=["set"], MaxVars=1, MaxNodes=5, MaxObs=3, MaxActs=12, MaxRounds=3, MaxH=16),
     # node-level on_update handlers (Incr::on_update): counters in the audit, deliveries as conformance
     "onupd_s": fam(Ctors=["var", "map"], Fs1=["id", "const0"], Effs=["onupdate"], MaxNodes=2, MaxObs=2, MaxActs=8, MaxRounds=3),
     # crash points other than node functions: bind closure / cutoff function / expert observability callback
